@@ -800,6 +800,26 @@ def _sf_arith_next(ip, e, st):
     return Num(_iter_cell(ip, st, ip.ev1(e.args[0], st)).nextval)
 
 
-SPEC_FORMS = {"arith_next": _sf_arith_next, "old": _sf_old, "implies": _sf_implies, "iff": _sf_iff, "pulled": _sf_pulled, "content": _sf_content,
+def _sf_is_fresh(ip, e, st):
+    """is_fresh(x): x is an object created during this call (not reachable at entry): shares nothing with the
+    arguments, the fields of self or anything yielded before -- at the top level (nested sharing is not modelled)"""
+    v = ip.ev1(e.args[0], st)
+    if isinstance(v, Ref):
+        if v.cid in ip.entry.heap or v.path:
+            return Bool(FALSE)
+        out = st.env.get("out")
+        if isinstance(out, Ref) and isinstance(st.heap[out.cid], PyListCell):
+            n = 0
+            for it in st.heap[out.cid].items:
+                for x in (it.items if isinstance(it, Tup) else [it]):
+                    if isinstance(x, Ref) and x.cid == v.cid:
+                        n += 1
+            if n > 1:
+                return Bool(FALSE)
+        return Bool(TRUE)
+    return Bool(TRUE)       # immutable values share nothing
+
+
+SPEC_FORMS = {"is_fresh": _sf_is_fresh, "arith_next": _sf_arith_next, "old": _sf_old, "implies": _sf_implies, "iff": _sf_iff, "pulled": _sf_pulled, "content": _sf_content,
               "rest": _sf_rest}
 SPEC_FORMS.update(_dict_forms())
